@@ -67,12 +67,43 @@ Proof. exact nb_threads_pinned_refuted. Qed.
 Theorem C18_params : forall s o, spec_params_ok s o (params_of_flags s o) = true.
 Proof. exact params_meet_spec. Qed.
 
+(* near-restatement: for one scanned file the model's stdout lines are the documented rendering of
+   the library's result list (negate, limit, count, -i / -t filters, -s -L -X -m -g -e), given the
+   library's callback events are what `lib_events` says (its two APIs agree; checked per case by the
+   correspondence, proved nowhere here) *)
+Theorem C18_render :
+  forall o ds what rs,
+    o_limit o <> Some 0 -> results_ok ds rs ->
+    spec_file_lines o ds what (Some rs)
+    = Some (stdout_of (worker_lines o (fun _ => inr (lib_events o ds rs)) what)).
+Proof. exact render_file. Qed.
+
+(* the callback loop stops right after the event that makes nb_rules reach the limit *)
+Theorem C18_limit :
+  forall o what evs, forallb is_rule evs = true -> forall nb,
+    match o_limit o with Some lim => nb < lim | None => True end ->
+    run_events o what evs nb = (map (block_of o what) (take_limit o nb evs), nb + nlen (take_limit o nb evs)).
+Proof. exact run_events_rules. Qed.
+
 (* non-vacuity: a terminal state is reachable (2 files, a producer line, 2 workers, capacity 10),
    with the blocks of the two files interleaved *)
 Example C18_example_run :
   exists s, reachable ex_blocks 10 (init [inr 1; inl 7; inr 2] 2) s /\ terminal s
             /\ out s = [7; 2; 102; 1; 101; 201; 202].
 Proof. exact example_run. Qed.
+
+(* non-vacuity of C18_render: a declared rule with a private and a public string, -s -n -l 2 *)
+Example C18_render_example :
+  let d := {| d_info := {| r_ns := B "default"; r_name := B "a"; r_tags := [B "t1"]; r_metas := [(B "i", MInt (-5)%Z)] |};
+              d_private := false; d_global := false; d_strings := [(B "x", false); (B "p", true)] |} in
+  let r := {| rr_ns := B "default"; rr_name := B "a"; rr_matched := false;
+              rr_strings := [(B "x", [{| m_base := 0; m_offset := 16; m_length := 3; m_key := 1; m_data := [96; 99; 98] |}])] |} in
+  let o := {| o_strings := true; o_length := true; o_xor := true; o_meta := true; o_ns := true; o_tags := true;
+              o_count := false; o_stats := false; o_module_data := false; o_match_max_length := None;
+              o_limit := Some 2; o_ident := None; o_tag := Some (B "t1"); o_negate := true; o_warning := WPrint |} in
+  spec_file_lines o [d] (B "t/f") (Some [r])
+  = Some [B "default:a [t1] [i=-5] t/f"; B "0x10:3:$x:xor(0x01,abc): `cb"].
+Proof. vm_compute. reflexivity. Qed.
 
 Print Assumptions C18_exactly_once.
 Print Assumptions C18_multiset.
@@ -84,3 +115,5 @@ Print Assumptions C18_run_bounded.
 Print Assumptions C18_threads_positive.
 Print Assumptions C18_threads_pinned_refuted.
 Print Assumptions C18_params.
+Print Assumptions C18_render.
+Print Assumptions C18_limit.
